@@ -1,0 +1,27 @@
+//go:build verif
+
+package dragonboat
+
+// More white-box access for the C01 verification harness (compiled only with
+// -tags verif): the replicated bookkeeping of a replica that is not the user
+// state machine's - applied index, session table hash, membership hash.
+
+// VerifC01ReplicaHashes returns the applied index of the shard's replica on nh
+// and, read while the applied index did not move, the hash of its client session
+// table and of its membership record. ok is false when the host runs no replica of
+// the shard or the replica kept applying entries.
+func VerifC01ReplicaHashes(nh *NodeHost, shardID uint64) (applied uint64, sessions uint64, membership uint64, ok bool) {
+	n, found := nh.getShard(shardID)
+	if !found || n.sm == nil {
+		return 0, 0, 0, false
+	}
+	for try := 0; try < 20; try++ {
+		applied = n.sm.GetLastApplied()
+		sessions = n.sm.GetSessionHash()
+		membership = n.sm.GetMembershipHash()
+		if n.sm.GetLastApplied() == applied {
+			return applied, sessions, membership, true
+		}
+	}
+	return 0, 0, 0, false
+}
